@@ -7,8 +7,9 @@
    conv recognises conventional names  part [-part] [+part],  part = letters digits
    ((.|_) digits)*;  key maps such a name to (letters, numbers), optional pre-release key,
    optional post-release key;  key_compare is the lexicographic order on keys. *)
-From Eupsv Require Import Base.Base Base.BaseLemmas Model.VersionCompare Model.VersionKey
-  Proofs.VersionCompareLib Proofs.VersionCompare Proofs.VersionCompareKey Proofs.VersionCompareMatch.
+From Eupsv Require Import Base.Base Base.BaseLemmas Model.VersionCompare Model.VersionKey Model.VersionStacks
+  Proofs.VersionCompareLib Proofs.VersionCompare Proofs.VersionCompareKey Proofs.VersionCompareMatch
+  Proofs.VersionStacks.
 
 (* ------------------------------------------------------------ every accepted name *)
 
@@ -262,6 +263,85 @@ Print Assumptions latest_is_max.
 Theorem latest_none l : latest l = Ok None <-> l = [].
 Proof. exact (latest_none_iff l). Qed.
 Print Assumptions latest_none.
+
+(* ------------------------------------------------------------ latest over the stacks of the path *)
+
+(* Eups._findLatestProduct: latest_over_stacks minver stacks, stacks = for every stack of EUPS_PATH
+   in order the versions it declares, minver the optional minimum version.  The answer (position of
+   the stack, version) names a version declared in that stack which is a maximum, in the key order,
+   of the union of all the stacks' versions - whichever stack holds it - and is not below the
+   minimum; there is no answer exactly when (no minimum) no stack declares a version, (minimum)
+   every declared version is below the minimum. *)
+Theorem latest_over_stacks_is_max minver stacks :
+  conv_min minver -> conv_stacks stacks ->
+  exists r, latest_over_stacks minver stacks = Ok r /\
+    match r with
+    | Some (i, m) =>
+        (exists vs, nth_error stacks i = Some vs /\ In m vs) /\
+        (forall x, In x (concat stacks) -> key_le (key x) (key m)) /\
+        (forall mv, minver = Some mv -> key_le (key mv) (key m))
+    | None =>
+        forall x, In x (concat stacks) ->
+          match minver with Some mv => key_lt (key x) (key mv) | None => False end
+    end.
+Proof.
+  intros Hm Hs. destruct (latest_over_stacks_spec minver stacks Hm Hs) as [r [E K]]. exists r. split; [exact E|].
+  destruct r as [[i m]|]; [|exact K]. destruct K as (_ & L & M & Mn). auto.
+Qed.
+Print Assumptions latest_over_stacks_is_max.
+
+Theorem latest_over_stacks_none stacks :
+  conv_stacks stacks -> (latest_over_stacks None stacks = Ok None <-> concat stacks = []).
+Proof. exact (latest_over_stacks_none_iff stacks). Qed.
+Print Assumptions latest_over_stacks_none.
+
+Theorem latest_over_stacks_none_with_minimum mv stacks :
+  conv mv = true -> conv_stacks stacks ->
+  (latest_over_stacks (Some mv) stacks = Ok None <-> forall x, In x (concat stacks) -> key_lt (key x) (key mv)).
+Proof. exact (latest_over_stacks_min_none_iff mv stacks). Qed.
+Print Assumptions latest_over_stacks_none_with_minimum.
+
+(* one stack and no minimum: the search is the function latest of that stack (any names) *)
+Theorem latest_over_one_stack l :
+  latest_over_stacks None [l] =
+  match latest l with Ok (Some m) => Ok (Some (0, m)) | Ok None => Ok None | Err e => Err e end.
+Proof. unfold latest_over_stacks. cbn [latest_stacks_from]. now destruct (latest l) as [[m|]|e]. Qed.
+Print Assumptions latest_over_one_stack.
+
+(* eups list -t latest (Eups.findProducts): every stack is asked on its own; every entry is a maximum
+   of the stack it names, and a maximum of every stack that declares the product is among the
+   version names listed (equal entries of different stacks are listed once) *)
+Theorem latest_listing_per_stack stacks :
+  conv_stacks stacks ->
+  exists lst, latest_listing stacks = Ok lst /\
+    (forall i v, In (i, v) lst ->
+       exists vs, nth_error stacks i = Some vs /\ In v vs /\ forall x, In x vs -> key_le (key x) (key v)) /\
+    (forall i vs, nth_error stacks i = Some vs -> vs <> [] ->
+       exists v, In v (map snd lst) /\ In v vs /\ forall x, In x vs -> key_le (key x) (key v)).
+Proof. exact (latest_listing_spec stacks). Qed.
+Print Assumptions latest_listing_per_stack.
+
+(* the maximum may be in any stack; ties go to the first stack; the minimum passes stacks over *)
+Example latest_over_stacks_inhabited :
+  let A := [lit "1.0"; lit "10.0"; lit "2.0"] in
+  let B := [lit "1.5"; lit "3.0"] in
+  let C := [lit "2.5"; lit "9.0-rc1"; lit "10_0"] in
+  conv_stacks [A; B; C; []] /\
+  latest_over_stacks None [A; B] = Ok (Some (0, lit "10.0")) /\
+  latest_over_stacks None [B; A] = Ok (Some (1, lit "10.0")) /\
+  latest_over_stacks None [B; []; C; A] = Ok (Some (2, lit "10_0")) /\
+  latest_over_stacks None [[]; []] = Ok None /\
+  latest_over_stacks (Some (lit "3.0")) [B; []] = Ok (Some (0, lit "3.0")) /\
+  latest_over_stacks (Some (lit "3.0.1")) [B; []] = Ok None /\
+  latest_over_stacks (Some (lit "3.0.1")) [B; A] = Ok (Some (1, lit "10.0")) /\
+  latest_over_stacks (Some (lit "11")) [B; A; C] = Ok None /\
+  latest_over_stacks (Some []) [B; A] = Ok (Some (1, lit "10.0")) /\
+  latest_per_stack [A; []; B] = Ok [Some (lit "10.0"); None; Some (lit "3.0")] /\
+  latest_listing [A; []; B; [lit "10.0"; lit "3.0"]] = Ok [(0, lit "10.0"); (2, lit "3.0")].
+Proof.
+  cbv zeta. split; [|vm_compute; repeat split].
+  unfold conv_stacks, conv_list. repeat (apply Forall_cons || apply Forall_nil); vm_compute; reflexivity.
+Qed.
 
 (* ------------------------------------------------------------ witnesses *)
 
